@@ -35,12 +35,14 @@ class C10(Prop):
     lean_modules = ["Pfb.C10.Props"]
     theorems = [
         "Pfb.C10.C10_lossless",
+        "Pfb.C10.C10_statements_lossless",
         "Pfb.C10.C10_total",
         "Pfb.C10.C10_positions",
         "Pfb.C10.C10_one_node",
         "Pfb.C10.C10_noncode",
         "Pfb.C10.normalize_lossless",
         "Pfb.C10.normalize_node_untouched",
+        "Pfb.C10.wellPlacedB_sound",
         "Pfb.slice_joined",
         "Pfb.slice_append",
         "Pfb.Pos.add_true",
@@ -282,6 +284,8 @@ class C10(Prop):
 
     def compare(self, case, obs, resps):
         r = resps[0]
+        if not r.get("wp") and "err" not in obs:
+            return "hypothesis WellPlaced of the C10 theorems does not hold for this input (positions from stdlib ast)"
         if "err" in obs:
             if "err" in r:
                 return None
